@@ -30,6 +30,9 @@ import (
 type c08Version struct {
 	Keys    []int `json:"keys"`    // indices into the key pool (0..2)
 	Advance int   `json:"advance"` // how far the bugs-edit clock moves before this version is created (0 = not at all)
+	// InPlace: when the number of keys stays the same, the mutator overwrites the slots of the key list it was
+	// handed (a rotation "in the same slot") instead of assigning a new list
+	InPlace bool `json:"in_place,omitempty"`
 }
 
 type c08Case struct {
@@ -62,7 +65,7 @@ func genC08(t *rapid.T) c08Case {
 	n := rapid.IntRange(1, 5).Draw(t, "nVersions")
 	total := 1
 	for i := 0; i < n; i++ {
-		v := c08Version{Advance: rapid.IntRange(0, 4).Draw(t, "advance")}
+		v := c08Version{Advance: rapid.IntRange(0, 4).Draw(t, "advance"), InPlace: rapid.Bool().Draw(t, "inPlace")}
 		minKeys := 0
 		if rapid.IntRange(0, 3).Draw(t, "keyed") > 0 {
 			minKeys = 1
@@ -126,6 +129,7 @@ func runC08(tb report.TB, rep *report.Reporter, c c08Case) {
 		return out
 	}
 	var author *identity.Identity
+	inPlaceRotations := 0
 	for i, v := range c.Versions {
 		adv := uint64(v.Advance)
 		if i == 0 && c.ClockAtFirst && adv == 0 {
@@ -151,12 +155,26 @@ func runC08(tb report.TB, rep *report.Reporter, c c08Case) {
 			}
 		} else {
 			err = author.Mutate(repo, func(m *identity.Mutator) {
-				m.Name = fmt.Sprintf("signer v%d", i)
-				m.Keys = keysOf(v.Keys)
+				nk := keysOf(v.Keys)
+				if v.InPlace && len(nk) == len(m.Keys) && len(nk) > 0 && fmt.Sprint(v.Keys) != fmt.Sprint(c.Versions[i-1].Keys) {
+					// a pure rotation: nothing but the keys changes, and they change in the slots of the list handed in
+					for k := range nk {
+						m.Keys[k] = nk[k]
+					}
+					inPlaceRotations++
+				} else {
+					m.Name = fmt.Sprintf("signer v%d", i)
+					m.Keys = nk
+				}
 			})
 			if err != nil {
 				tb.Fatalf("harness: %v", err)
 			}
+		}
+		if i > 0 && !author.NeedCommit() {
+			// the mutator changed the keys (or the name) and Mutate recorded no new version
+			fail("key-change-not-recorded", fmt.Sprintf("version %d: the mutator set keys %v (before: %v) and Mutate() added no version: the change of keys is lost, the old keys stay in force", i, v.Keys, c.Versions[i-1].Keys))
+			return
 		}
 		if err := author.Commit(repo); err != nil {
 			tb.Fatalf("harness: identity commit: %v", err)
@@ -367,7 +385,7 @@ func runC08(tb report.TB, rep *report.Reporter, c c08Case) {
 	}
 	rep.Case(fmt.Sprintf("%s|%s|%s|clk%v|%s", strings.Join(pattern, ""), rel, variant+alteration, c.ClockAtFirst, shapeName(c.Shape)),
 		len(inForce) > 0 && variant != "right",
-		[]string{"variant:" + variant, rel, fmt.Sprintf("versions:%d", len(ref)), fmt.Sprintf("expect-accept:%v", wantAccept), "shape:" + shapeName(c.Shape), "altered:" + alteration}, c)
+		[]string{"variant:" + variant, rel, fmt.Sprintf("versions:%d", len(ref)), fmt.Sprintf("expect-accept:%v", wantAccept), "shape:" + shapeName(c.Shape), "altered:" + alteration, fmt.Sprintf("in-place-rotation:%v", inPlaceRotations > 0)}, c)
 
 	detail := func(extra string) string {
 		return fmt.Sprintf("versions (bugs-edit time / keys): %+v\ncommit at edit time %d, variant %s (signer key %d), keys in force %v, expected accept=%v\n%s", ref, T, variant, signer, inForce, wantAccept, extra)
